@@ -118,6 +118,9 @@ type HalfState struct {
 	MACKey []byte
 	Seq    uint64
 	On     bool
+	// NonceOffset (sender, GCM): the 8 explicit nonce bytes written into a record are Seq+NonceOffset instead of Seq — what
+	// a sender with its own nonce counter or a random starting point does; the additional data still carries Seq.
+	NonceOffset uint64
 }
 
 func (h *HalfState) seqBytes() []byte {
@@ -194,9 +197,11 @@ func (h *HalfState) Seal(typ byte, data, iv []byte, padLen int) []byte {
 	var body []byte
 	if SuiteIsGCM(h.Suite) {
 		g, _ := cipher.NewGCM(blk)
-		nonce := append(append([]byte{}, h.IV...), h.seqBytes()...)
+		var explicit [8]byte
+		binary.BigEndian.PutUint64(explicit[:], h.Seq+h.NonceOffset)
+		nonce := append(append([]byte{}, h.IV...), explicit[:]...)
 		aad := append(h.seqBytes(), typ, ver[0], ver[1], byte(len(data)>>8), byte(len(data)))
-		body = append(append([]byte{}, h.seqBytes()...), g.Seal(nil, nonce, data, aad)...)
+		body = append(append([]byte{}, explicit[:]...), g.Seal(nil, nonce, data, aad)...)
 	} else {
 		hdr := append(h.seqBytes(), typ, ver[0], ver[1], byte(len(data)>>8), byte(len(data)))
 		pt := append(append([]byte{}, data...), HMACSM3(h.MACKey, append(hdr, data...))...)
